@@ -738,7 +738,14 @@ func (c *Config) mutualVersion(vers uint16) (uint16, bool) {
 	if vers > maxVersion {
 		vers = maxVersion
 	}
-	return vers, true
+	// The default minimum is VersionGMSSL (0x0101), far below SSL 3.0: every
+	// value in between passed the range check although nothing implements it
+	// (the handshake then panicked with "unknown version").
+	switch vers {
+	case VersionGMSSL, VersionSSL30, VersionTLS10, VersionTLS11, VersionTLS12:
+		return vers, true
+	}
+	return 0, false
 }
 
 // getCertificate 返回密钥交换使用的证书及密钥
